@@ -53,8 +53,15 @@ def truthy(v):
 
 
 class Evaluator:
-  def __init__(self, prog, switches=None, max_rows=1500, max_steps=150000, max_total=4000):
+  def __init__(self, prog, switches=None, max_rows=1500, max_steps=150000, max_total=4000, parent=None, subst=None):
     self.prog = prog
+    self.parent = parent
+    self.children = {}
+    # functor applications  N := F(A: B, ...):  {N: (F, {A: B | ('const', value)})}
+    self.makes = {}
+    for a in prog.get('annotations', []):
+      if a[0] == 'make':
+        self.makes[a[1]] = (a[2], {x: (y if isinstance(y, str) else ('const', y)) for x, y in a[3]})
     self.switches = switches or {}
     self.rules = {}
     for r in prog['rules']:
@@ -68,7 +75,7 @@ class Evaluator:
     self.failed = {}
     self.steps = 0
     self.fresh = 0
-    self.subst = {}       # predicate substitution (functor semantics): name -> name
+    self.subst = dict(subst or {})   # predicate substitution of this context (functor semantics)
     self.overrides = {}   # explicit tables (recursion driver)
     self.stats = Counter()
     # @OrderBy / @Limit: {pred: [(column, descending)]}, {pred: k}; ordered[pred] = list of rows in order
@@ -89,7 +96,25 @@ class Evaluator:
         self.limit[a[1]] = a[2]
 
   # ------------------------------------------------------------------------------------------
+  def substituted(self, pred):
+    """(context, target) if pred is an argument of an enclosing functor application, else None.
+    Substitutions compose: a name not bound by the innermost application is looked up in the enclosing ones."""
+    c = self
+    while c is not None:
+      if pred in c.subst:
+        return c.parent, c.subst[pred]
+      c = c.parent
+    return None
+
   def columns(self, pred):
+    sub = self.substituted(pred)
+    if sub is not None:
+      ctx, tgt = sub
+      if isinstance(tgt, tuple):
+        return ['logica_value']
+      return ctx.columns(tgt)
+    if pred in self.makes:
+      return self.columns(self.makes[pred][0])
     if pred in self.cols:
       return self.cols[pred]
     rs = self.rules.get(pred)
@@ -114,6 +139,22 @@ class Evaluator:
 
   def table(self, pred):
     """Multiset of rows of a concrete predicate, rows as tuples aligned with columns(pred)."""
+    sub = self.substituted(pred)
+    if sub is not None:
+      # an argument of a functor application: its value is read in the context enclosing that application
+      ctx, tgt = sub
+      if isinstance(tgt, tuple):
+        t = Counter()
+        t[RowWithAgg([tgt[1]])] = 1
+        return t
+      return ctx.table(tgt)
+    if pred in self.makes:
+      # N := F(A: B): F with every use of A, direct or through the predicates F is built from, replaced by B
+      if pred not in self.children:
+        f, sigma = self.makes[pred]
+        self.children[pred] = Evaluator(self.prog, switches=self.switches, max_rows=self.max_rows, max_steps=self.max_steps,
+                                        max_total=self.max_total, parent=self, subst=sigma)
+      return self.children[pred].table(self.makes[pred][0])
     if pred in self.overrides:
       return self.overrides[pred]
     if pred in self.tables:
@@ -295,8 +336,8 @@ class Evaluator:
       if k == 'and':
         yield from self._solve(lits[:i] + flatten_and(l) + lits[i + 1:], env, scope)
         return
-      if k == 'call' and self.is_injectible_only(self.subst.get(l[1], l[1])):
-        extra, new_vars = self.injection_literals(self.subst.get(l[1], l[1]), l)
+      if k == 'call' and self.substituted(l[1]) is None and self.is_injectible_only(l[1]):
+        extra, new_vars = self.injection_literals(l[1], l)
         yield from self._solve(lits[:i] + extra + lits[i + 1:], env, LevelScope(scope.visible | new_vars))
         return
     for i, l in enumerate(lits):
@@ -430,7 +471,7 @@ class Evaluator:
     return False
 
   def step_call(self, l, env, scope):
-    pred = self.subst.get(l[1], l[1])
+    pred = l[1]
     cols = self.columns(pred)
     table = self.table(pred)
     # positions addressed by the call
